@@ -203,7 +203,10 @@ def run_check(mod, tier, seed, jobs=None):
             unknown.append((c, v))
     for k in {canon(m): m for m in matched}.values():
         print(f"KNOWN-FINDING: property={pid} {k.get('what', canon(k['culprit']))}")
-    rdir = os.path.join(ROOT, "replays", pid)
+    if os.path.realpath(SRC) == os.path.realpath("/repo/src"):
+        rdir = os.path.join(ROOT, "replays", pid)
+    else:
+        rdir = os.path.join(os.path.dirname(os.path.realpath(SRC)), "verif-replays", pid)
     lines = []
     for c, v in unknown[: int(os.environ.get("VERIF_MAXSHOW", "25"))]:
         os.makedirs(rdir, exist_ok=True)
@@ -251,7 +254,12 @@ def run_check(mod, tier, seed, jobs=None):
         "wall_s": round(wall, 3),
         "violations": len(unknown),
     }
-    edir = os.path.join(ROOT, "evidence")
+    # /verif/evidence describes /repo only: a run against another source root (mutation / seeded-change harness)
+    # writes its evidence elsewhere
+    if os.path.realpath(SRC) == os.path.realpath("/repo/src"):
+        edir = os.path.join(ROOT, "evidence")
+    else:
+        edir = os.environ.get("VERIF_EVIDENCE_DIR") or os.path.join(os.path.dirname(os.path.realpath(SRC)), "verif-evidence")
     os.makedirs(edir, exist_ok=True)
     with open(os.path.join(edir, pid + ".json"), "w") as fh:
         json.dump(ev, fh, indent=1, sort_keys=True)
